@@ -335,6 +335,12 @@ def exec (sub : SubRun) (g : G) (f : Frame) (ins : Instr) : StepR :=
     let num := n.toNat
     if f.top < num then err g f "E3:无效的表达式" else
     let parts := (List.range num).map (fun i => valToString g.heap (f.stack[f.top - num + i]!))
+    -- the cap is checked after each part is appended
+    let rec tooLong (l : List String) (acc : Nat) : Bool :=
+      match l with
+      | [] => false
+      | p :: r => if acc + p.utf8ByteSize > maxStringLength then true else tooLong r (acc + p.utf8ByteSize)
+    if tooLong parts 0 then err g f "不能一次性创建过长的字符串" else
     let s := String.join parts
     let f1 := { f with top := f.top - num }
     pushV g f1 (.str s)
@@ -494,9 +500,11 @@ def exec (sub : SubRun) (g : G) (f : Frame) (ins : Instr) : StepR :=
           else if f'.wodPoints < 1 then err g f' "E7: 非法数值, 面数至少为1"
           else if f'.wodThreshold < 1 then err g f' "E7: 非法数值, 成功线至少为1"
           else
-            (match drawLoop g.rng (DS.Roll.rollWoD 2000 addLine f'.wodPool f'.wodPoints f'.wodThreshold f'.wodGE (mode g.cfg)) with
+            let budget : Option Int := if g.cfg.opLimit > 0 then some (g.cfg.opLimit - getOps g c) else none
+            (match drawLoop g.rng (fun ws => DS.Roll.rollWoD 40000 addLine f'.wodPool f'.wodPoints f'.wodThreshold f'.wodGE (mode g.cfg) ws budget) with
              | some (some (r, st)) =>
-               let g1 := { g with rng := st }
+               let g1 := addOps { g with rng := st } c r.charged
+               if r.over then err g1 f' "允许算力上限" else
                (match updLast f'.details (fun sp => { sp with ret := some (.int r.value), text := r.text, tag := "dice-wod" }) with
                 | none => pan g1 f' "index out of range [-1]@dice.wod details"
                 | some dl => pushV g1 { f' with details := dl } (.int r.value))
@@ -513,9 +521,11 @@ def exec (sub : SubRun) (g : G) (f : Frame) (ins : Instr) : StepR :=
           else if addLine < 2 then err g f' "E7: 非法数值, 加骰线必须大于等于2"
           else if f'.dcPoints < 1 then err g f' "E7: 非法数值, 面数至少为1"
           else
-            (match drawLoop g.rng (DS.Roll.rollDC 2000 addLine f'.dcPool f'.dcPoints (mode g.cfg)) with
+            let budget : Option Int := if g.cfg.opLimit > 0 then some (g.cfg.opLimit - getOps g c) else none
+            (match drawLoop g.rng (fun ws => DS.Roll.rollDC 40000 addLine f'.dcPool f'.dcPoints (mode g.cfg) ws budget) with
              | some (some (r, st)) =>
-               let g1 := { g with rng := st }
+               let g1 := addOps { g with rng := st } c r.charged
+               if r.over then err g1 f' "允许算力上限" else
                (match updLast f'.details (fun sp => { sp with ret := some (.int r.value), text := r.text, tag := "dice-dc" }) with
                 | none => pan g1 f' "index out of range [-1]@dice.dc details"
                 | some dl => pushV g1 { f' with details := dl } (.int r.value))
